@@ -7,7 +7,9 @@ expanded) and EVERY occurrence of the object in an expression is classified by w
 
   read      the value (or an element / field) is loaded
   write     assigned, compound-assigned, ++/-- (also through a local pointer alias: `p = tab; p[i] = x`)
-  constArg  its address is passed to a parameter declared pointer-to-const
+  constArg  its address is passed to a parameter declared pointer-to-const; when the callee is defined in the library the
+            parameter is then followed inside the callee like a local alias (4 levels), so a callee that casts the const
+            away and writes shows up as a `write` of the object
   mutArg    its address is passed to a parameter declared pointer-to-non-const (or variadic): callee may write
   cmp       its address is only compared / tested / subtracted
   sizeof    unevaluated operand
@@ -108,8 +110,9 @@ def pointee_const(t):
     return re.search(r"\bconst\b", p) is not None
 
 class TU:
-    def __init__(self, build, path, names_global, names_local):
+    def __init__(self, build, path, names_global, names_local, param_seeds=None):
         self.build, self.path = build, path
+        self.param_seeds = param_seeds or {}      # function name -> {parameter index (0-based): set of origins}
         self.rel = os.path.relpath(os.path.realpath(path) if os.path.islink(path) else path, os.path.realpath(build))
         self.names_global, self.names_local = names_global, names_local
         self.uses = {}     # (node id, obj) -> record
@@ -168,7 +171,11 @@ class TU:
             for c in n.get("inner", []):
                 if isinstance(c, dict): walk(c, parents + [n])
         walk(fn, [])
-        tainted = {}        # local VarDecl id -> set of (scope, name)
+        tainted = {}        # local VarDecl id -> set of (scope, name[, defining member])
+        if not static_init and fname in self.param_seeds:
+            parms = [c for c in fn.get("inner", []) if isinstance(c, dict) and c.get("kind") == "ParmVarDecl"]
+            for i, org in self.param_seeds[fname].items():
+                if i < len(parms): tainted[parms[i]["id"]] = set(org)
         for _ in range(8):
             changed = False
             for n, parents in refs:
@@ -185,7 +192,7 @@ class TU:
                 if kind is None: continue
                 at = n.get("_at") or ("?", 0, 0)
                 for o in origins:
-                    self.uses[(n["id"], o, kind)] = dict(obj=o[1], scope=o[0], file=self.rel, func=fname, line=at[1], col=at[2],
+                    self.uses[(n["id"], o, kind)] = dict(obj=o[1], scope=o[0], objmember=(o[2] if len(o) > 2 else None), path=self.path, file=self.rel, func=fname, line=at[1], col=at[2],
                                                          srcfile=at[0], kind=kind, via=(via + (":" if via and detail else "") + detail))
             if not changed: break
 
@@ -356,10 +363,54 @@ def analyse(build):
     uses = out
     defmem = {k[1]: k[0] for k, o in objs.items() if not o["local"]}
     for u in uses:
+        if u.get("objmember"): continue
         if u["scope"] == "G": u["objmember"] = defmem[u["obj"]]
         else:
             c = [m for m in u["members"] if any(k[0] == m and objs[k]["local"] and base_name(k[1]) == u["obj"] for k in objs)]
             u["objmember"] = c[0] if c else u["members"][0]
+    # ---- callees behind pointer-to-const parameters: follow the parameter inside the callee (up to 4 levels)
+    fn_members = {}
+    for mem, fs in funcs.items():
+        for f in fs: fn_members.setdefault(f, []).append(mem)
+    def callee_of(u):
+        m = re.search(r"(?:^|:)([A-Za-z_]\w*) arg (\d+) \(", u["via"])
+        return (m.group(1), int(m.group(2)) - 1) if m else None
+    pending = set(); done = set(); external = set()
+    def collect(us):
+        for u in us:
+            if u["kind"] == "constArg":
+                c = callee_of(u)
+                if c: pending.add((c[0], c[1], (u["scope"], u["obj"], u["objmember"]), u["path"]))
+                else: external.add(u["via"])
+    collect(uses)
+    for depth in range(4):
+        todo = {t for t in pending if t[:3] not in done}
+        if not todo: break
+        by_src = {}
+        for (callee, i, o, caller_path) in todo:
+            done.add((callee, i, o))
+            srcs = [sfile for mem in fn_members.get(callee, []) for sfile in (matched.get(mem) or member_sources(build, mem))]
+            if not srcs:
+                if callee in fn_members or not caller_path: external.add(callee); continue
+                srcs = [caller_path]               # a static function without a symbol of its own (inlined): same translation unit
+            for sfile in srcs: by_src.setdefault(sfile, {}).setdefault(callee, {}).setdefault(i, set()).add(o)
+        def work2(item):
+            sfile, seeds = item
+            us, defined = TU(build, sfile, set(), set(), seeds).run()
+            found = {f for f in seeds if f in defined}
+            return sfile, us, set(seeds) - found
+        with ThreadPoolExecutor(max_workers=min(vlib.NPROC, 12)) as ex: res2 = list(ex.map(work2, sorted(by_src.items())))
+        new = []
+        for sfile, us, notfound in res2:
+            external |= notfound
+            ms = [m for m, ss in matched.items() if sfile in ss]
+            for u in us:
+                u["members"] = ms or ["?"]; u["via"] = "param of callee" + (":" + u["via"] if u["via"] else "")
+                k = (os.path.basename(u["srcfile"]), u["line"], u["col"], u["obj"], u["kind"], u["func"], u["via"], u["objmember"])
+                if k in seen: continue
+                seen.add(k); new.append(u)
+        uses += new; collect(new)
+    analyse.external_callees = sorted(external)
     have = {(m, u["obj"]) for u in uses for m in u["members"]}
     havew = {(m, u["obj"]) for u in uses for m in u["members"] if u["kind"] not in READONLY_KINDS}
     missing = []
@@ -369,7 +420,7 @@ def analyse(build):
         if (mem, b) not in have: missing.append("%s references %s (%s in %s) but the source analysis found no use" % (mem, key[1], kind, fn))
         elif kind == "store" and (mem, b) not in havew: missing.append("%s stores to %s in %s but the source analysis found no write" % (mem, key[1], fn))
     if missing: raise RuntimeError("binary/source mismatch: " + "; ".join(sorted(set(missing))[:6]))
-    for u in uses: u.pop("_k", None)
+    for u in uses: u.pop("_k", None); u.pop("path", None)
     uses.sort(key=lambda u: (u["obj"], u["objmember"], u["file"], u["line"], u["col"], u["kind"], u["via"]))
     return objs, uses, asm_refs, len(jobs)
 
@@ -420,7 +471,7 @@ def gen_globaluses(ctx):
     viol = violations(build, objs_l, uses)
     ctx.globaluses_violations = viol
     for v in viol: print("DETAIL: C15 static scan: " + v[:900])
-    ctx.globaluses_report = dict(translation_units=ntu, uses=len(uses), per_object=report(None, uses), asm_members_with_relro_tables=asm_refs)
+    ctx.globaluses_report = dict(external_or_unfollowed_callees_behind_const_parameters=getattr(analyse, "external_callees", None), translation_units=ntu, uses=len(uses), per_object=report(None, uses), asm_members_with_relro_tables=asm_refs)
     rows = ['  { obj := %s, objFile := %s, file := %s, func := %s, line := %d, kind := %s, via := %s }' % (
         lean_str(u["obj"]), lean_str(u["objmember"]), lean_str(u["file"]), lean_str(u["func"]), u["line"], lean_str(u["kind"]), lean_str(u["via"])) for u in uses]
     txt = ("-- GENERATED by tools/gen_globaluses.py (clang AST of every translation unit that references a writable static object) — do not edit.\n"
